@@ -65,7 +65,7 @@ func runC17(c *Ctx) {
 				}
 				if okArgs && f.Name == spFn+"provideRegions" {
 					s, isSel := eng.Unparen(call.Args[0]).(*ast.SelectorExpr)
-					okArgs = isSel && s.Sel.Name == "Prefix"
+					okArgs = isSel && eng.NameOf(s.Sel) == "Prefix"
 					if okArgs {
 						// keys gathered from this region
 						okArgs = false
@@ -81,7 +81,7 @@ func runC17(c *Ctx) {
 				c.Check(K(f.Name, "requeue arguments"), call.Pos(), okArgs, "failed keys are re-queued under the prefix they were dequeued with", "arguments differ")
 			}
 		}
-		c.Check("error edges", 0, nEdges >= 6, "at least 6 error edges re-queue their work", "found "+itoa(nEdges))
+		c.Check("error edges", 0, nEdges >= 3, "at least 3 error edges re-queue their work", "found "+itoa(nEdges))
 		// the re-queue helpers really enqueue
 		fp := c.Fn(spFn + "failedProvide")
 		okFP := false
@@ -114,7 +114,7 @@ func runC17(c *Ctx) {
 					}
 					b, ok := eng.Unparen(leaf).(*ast.BinaryExpr)
 					if ok && isNil(ginfo, b.Y) {
-						if o := eng.ObjOf(ginfo, b.X); o != nil && o.Name() == "err" {
+						if o := eng.ObjOf(ginfo, b.X); o != nil && eng.VarName(o) == "err" {
 							return "errNil", b.Op == token.EQL, true
 						}
 					}
@@ -149,7 +149,7 @@ func runC17(c *Ctx) {
 				okFl, _ = cf.Guarded(fl[0], func(ft eng.Fact) bool {
 					x, isNilF, ok := ft.NilFact()
 					o := eng.ObjOf(info, x)
-					return ok && !isNilF && o != nil && o.Name() == "provideErr"
+					return ok && !isNilF && o != nil && eng.VarName(o) == "provideErr"
 				})
 			}
 			c.Check(K(ip.Name, "failed reprovide queued"), ip.Pos(), okFl, "an individual reprovide that failed is put into the reprovide queue", "failedReprovide not behind provideErr != nil")
@@ -192,7 +192,7 @@ func runC17(c *Ctx) {
 				c.Check(K(pr.Name, "reprovided region rescheduled"), rng.Pos(), okRS, "a region whose records were sent in reprovide mode is put back into the schedule", "an iteration can end in reprovide mode without reschedulePrefix")
 				for _, call := range pr.Calls(spFn+"releaseRegionReprovide", spFn+"reschedulePrefix") {
 					s, isSel := eng.Unparen(call.Args[0]).(*ast.SelectorExpr)
-					c.Check(K(pr.Name, short(call.Fun)+" argument"), call.Pos(), isSel && s.Sel.Name == "Prefix" && eng.SameExpr(info, s.X, rng.Value), "release and reschedule name the region being processed", "another prefix")
+					c.Check(K(pr.Name, short(call.Fun)+" argument"), call.Pos(), isSel && eng.NameOf(s.Sel) == "Prefix" && eng.SameExpr(info, s.X, rng.Value), "release and reschedule name the region being processed", "another prefix")
 				}
 			}
 		}
@@ -215,7 +215,7 @@ func runC17(c *Ctx) {
 			idOK, addrOK := false, false
 			for _, el := range cl.Elts {
 				kv := el.(*ast.KeyValueExpr)
-				switch kv.Key.(*ast.Ident).Name {
+				switch eng.NameOf(kv.Key.(*ast.Ident)) {
 				case "ID":
 					idOK = eng.IsField(sinfo, kv.Value, spT+".peerid")
 				case "Addrs":
@@ -332,10 +332,11 @@ func runC17(c *Ctx) {
 		c.Anchor(opObj != nil, "getOperations: op variable not found")
 		opCase := func(names ...string) func(eng.Fact) bool {
 			return func(ft eng.Fact) bool {
-				if ft.Tag == nil || !ft.Truth || !eng.IsObj(info, ft.Tag, opObj) {
+				v, ok := eqOperand(ft, func(e ast.Expr) bool { return eng.IsObj(info, e, opObj) })
+				if !ok {
 					return false
 				}
-				co := eng.ConstObj(info, ft.Expr)
+				co := eng.ConstObj(info, v)
 				if co == nil {
 					return false
 				}
@@ -415,7 +416,7 @@ func runC17(c *Ctx) {
 			}
 			if m, ok := wantFn[co.Name()]; ok {
 				s, isSel := eng.Unparen(call.Args[0]).(*ast.SelectorExpr)
-				c.Check(K(w.Name, co.Name()+" executes "+m), call.Pos(), isSel && s.Sel.Name == m, "queued "+co.Name()+" keys are passed to "+m, "another method")
+				c.Check(K(w.Name, co.Name()+" executes "+m), call.Pos(), isSel && eng.NameOf(s.Sel) == m, "queued "+co.Name()+" keys are passed to "+m, "another method")
 			}
 		}
 	}
@@ -444,7 +445,7 @@ func runC17(c *Ctx) {
 		for _, call := range f.Calls("(*dht/provider/internal/queue.ProvideQueue).DrainDatastore") {
 			g, _ := f.CFG().Guarded(f.CFG().LocOf(call), func(ft eng.Fact) bool {
 				s, ok := eng.Unparen(ft.Expr).(*ast.SelectorExpr)
-				return ok && ft.Truth && s.Sel.Name == "resumeCycle"
+				return ok && ft.Truth && eng.NameOf(s.Sel) == "resumeCycle"
 			})
 			okDrain = g
 		}
@@ -496,7 +497,7 @@ func runC17(c *Ctx) {
 			for _, ce := range conds {
 				at := func(leaf ast.Expr) (string, bool, bool) {
 					if o := eng.ObjOf(on.Info(), leaf); o != nil {
-						switch o.Name() {
+						switch eng.VarName(o) {
 						case "wasOffline":
 							return "wasOffline", true, true
 						case "bootstrapped":
